@@ -24,7 +24,8 @@ _N = {}         # number of line events per (scenario, family): measured once
 
 SCENARIOS = ['main-edit-with-dir-override', 'dir-edit',
              'defaults-with-permissive-default-rule', 'deprecated-defaults',
-             'deprecated-defaults-both-names', 'alias-edit']
+             'deprecated-defaults-both-names', 'alias-edit',
+             'dir-file-overrides-two']
 
 
 def _setup(env, scenario):
@@ -94,6 +95,24 @@ def _setup(env, scenario):
             env.write('policy.yaml', {'a:x': 'role:adm', 'b:y': '@',
                                       'c:z': 'rule:a:x and rule:b:y'})
         return defaults, ['a:x', 'b:y', 'c:z'], edit, ['adm', 'df']
+    if scenario == 'dir-file-overrides-two':
+        # one policy.d file swaps two rules that a third one combines: with
+        # the main file alone and with the directory applied c:z is the
+        # same conjunction, so only a directory file merged *half-way* can
+        # make it decide differently
+        env.write('policy.yaml', {'v': 'role:member', 'u': 'role:audit',
+                                  'c:z': 'rule:v and rule:u',
+                                  'other': 'role:m1'})
+        env.write('policy.d/swap.yaml', {'v': 'role:audit',
+                                         'u': 'role:member'})
+        defaults = [policy.RuleDefault('e:w', 'role:df')]
+
+        def edit():
+            env.write('policy.yaml', {'v': 'role:member', 'u': 'role:audit',
+                                      'c:z': 'rule:v and rule:u',
+                                      'other': 'role:m2'})
+        return defaults, ['v', 'u', 'c:z', 'other'], edit, \
+            ['member', 'audit', 'm1', 'm2']
     raise ValueError(scenario)
 
 
@@ -228,7 +247,8 @@ def cubes_schedule(tier, seed):
             ('defaults-with-permissive-default-rule', ['svc:delete']),
             ('deprecated-defaults', ['new']),
             ('deprecated-defaults-both-names', ['new']),
-            ('alias-edit', ['a:x', 'c:z'])]
+            ('alias-edit', ['a:x', 'c:z']),
+            ('dir-file-overrides-two', ['c:z'])]
     if tier != 'quick':
         plan = [('main-edit-with-dir-override', ['a:x', 'b:y', 'c:z', 'e:w']),
                 ('dir-edit', ['a:x', 'b:y', 'e:w']),
@@ -236,7 +256,8 @@ def cubes_schedule(tier, seed):
                  ['svc:delete', 'svc:get', 'svc:list']),
                 ('deprecated-defaults', ['new', 'keep', 'other']),
                 ('deprecated-defaults-both-names', ['new', 'keep']),
-                ('alias-edit', ['a:x', 'b:y', 'c:z'])]
+                ('alias-edit', ['a:x', 'b:y', 'c:z']),
+                ('dir-file-overrides-two', ['c:z', 'other'])]
     fams = ['writer-paused', 'reader-paused', 'decider-first']
     for sc, probes in plan:
         for fam in fams:
